@@ -109,9 +109,21 @@ var protoCtors = map[string]func() mangos.ProtocolBase{
 }
 
 // SendBody sends body on s; raw sockets get a well-formed header.
+// SendOwn is Socket.Send from a buffer of the caller's that the caller
+// overwrites as soon as the call has returned: Send([]byte) copies, so nothing
+// sent, queued or retained by the library may depend on that buffer afterwards.
+func SendOwn(s interface{ Send([]byte) error }, body []byte) error {
+	scratch := append(make([]byte, 0, len(body)+16), body...)
+	err := s.Send(scratch)
+	for i := range scratch {
+		scratch[i] = '#'
+	}
+	return err
+}
+
 func SendBody(s mangos.Socket, kind string, body []byte) error {
 	if !isRaw(kind) {
-		return s.Send(body)
+		return SendOwn(s, body)
 	}
 	m := mangos.NewMessage(len(body))
 	m.Body = append(m.Body, body...)
